@@ -6,6 +6,7 @@ package actor
 
 import (
 	"github.com/anthdm/hollywood/zzrt"
+	"github.com/anthdm/hollywood/zzshim/sync"
 )
 
 // ---- recording sink standing in for the event-stream actor ----
@@ -244,4 +245,83 @@ func (s *zzSink) count(kind int) int {
 		}
 	}
 	return n
+}
+
+// ---- exported helpers for harnesses in packages remote and cluster ----
+
+// ZZGot is one delivery recorded by a ZZRecProc.
+type ZZGot struct {
+	To     *PID
+	Msg    any
+	Sender *PID
+}
+
+// ZZRecProc is a registered process that records what is sent to it.
+type ZZRecProc struct {
+	Pid *PID
+	Got []ZZGot
+}
+
+func (r *ZZRecProc) Start()            {}
+func (r *ZZRecProc) PID() *PID         { return r.Pid }
+func (r *ZZRecProc) Invoke([]Envelope) {}
+func (r *ZZRecProc) Shutdown()         {}
+func (r *ZZRecProc) Send(to *PID, msg any, sender *PID) {
+	r.Got = append(r.Got, ZZGot{to, msg, sender})
+}
+
+// ZZEngine is a bare engine (registry + address, no goroutines) whose event
+// stream is a synchronous recording sink.
+type ZZEngine struct {
+	E    *Engine
+	sink *zzSink
+}
+
+func ZZNewEngine(addr string) *ZZEngine {
+	e, sink := zzBareEngine()
+	e.address = addr
+	sink.pid.Address = addr
+	return &ZZEngine{E: e, sink: sink}
+}
+
+// Register adds a recording process under the given id.
+func (z *ZZEngine) Register(id string) *ZZRecProc {
+	r := &ZZRecProc{Pid: NewPID(z.E.address, id)}
+	z.E.Registry.lookup[id] = r
+	return r
+}
+
+// Events returns everything broadcast on the engine's event stream so far.
+func (z *ZZEngine) Events() []any { return z.sink.evs }
+
+// SetRemote installs a Remoter on the bare engine.
+func (z *ZZEngine) SetRemote(r Remoter) { z.E.remote = r }
+
+// ZZRecRemote is a Remoter that records what the engine hands to it.
+type ZZRecRemote struct {
+	Addr string
+	Sent []ZZGot
+}
+
+func (r *ZZRecRemote) Address() string       { return r.Addr }
+func (r *ZZRecRemote) Start(*Engine) error   { return nil }
+func (r *ZZRecRemote) Stop() *sync.WaitGroup { return &sync.WaitGroup{} }
+func (r *ZZRecRemote) Send(to *PID, msg any, sender *PID) {
+	r.Sent = append(r.Sent, ZZGot{to, msg, sender})
+}
+
+// WithRecRemote installs a recording remote and returns it.
+func (z *ZZEngine) WithRecRemote() *ZZRecRemote {
+	r := &ZZRecRemote{Addr: z.E.address}
+	z.E.remote = r
+	return r
+}
+
+// ZZContext builds the Context an actor registered as pid on e would be handed
+// for msg from sender.
+func ZZContext(e *Engine, pid *PID, msg any, sender *PID) *Context {
+	c := newContext(nil, e, pid)
+	c.message = msg
+	c.sender = sender
+	return c
 }
